@@ -136,9 +136,19 @@ def r3_r4(ctx: Ctx, pf: FuncInfo) -> None:
             for k in c.keywords:
                 if k.arg == 'date_format' and isinstance(k.value, ast.Constant):
                     dfmt = k.value.value
-    if dfmt is None:
+    # every date format the detector can hand out: the literal itself, or - when the format is chosen at run time - every strptime-style
+    # literal inside the detector (nested helpers included)
+    cands = [dfmt] if dfmt is not None else sorted({n.value for n in ast.walk(ad.node) if isinstance(n, ast.Constant) and isinstance(n.value, str) and '%' in n.value
+                                                    and re.search(r'%[a-zA-Z]', n.value) and len(n.value) < 24})
+    cands = [c for c in cands if re.fullmatch(r'[%A-Za-z0-9 ,./:\-]+', c)]
+    if not cands:
         ctx.unknown('C18.R3', ad, 'detector date format literal not found')
-    ctx.check(',' not in dfmt and '}' not in dfmt, 'C18.R3', ad, 'detector-date-format', f'detector date format {dfmt!r} contains neither a comma nor a brace', f'detector date format {dfmt!r} would be split / cut by the reader')
+    for c_ in cands:
+        ctx.check(',' not in c_ and '}' not in c_, 'C18.R3', ad, 'detector-date-format' if dfmt is not None else f'detector-date-format:{c_}',
+                  f'detector date format {c_!r} contains neither a comma nor a brace',
+                  f'detector date format {c_!r} would be split / cut by the reader: the suggested `{{date:{c_}}}` is not accepted by parse_format_string (it splits the format string on commas)')
+    if dfmt is None:
+        dfmt = cands[0]
     # suggestion loop
     loops = [s for s in ast.walk(ci.node) if isinstance(s, ast.For) and 'range(max_col + 1)' in src(s.iter)]
     if len(loops) != 1:
@@ -159,9 +169,16 @@ def r3_r4(ctx: Ctx, pf: FuncInfo) -> None:
     seen = set()
     for test, body in arms:
         app = [c for s in body for c in ast.walk(s) if isinstance(c, ast.Call) and src(c.func) == 'cols.append']
-        if len(app) != 1:
-            ctx.unknown('C18.R4', ci, 'suggestion arm without a single cols.append')
-        tok = app[0].args[0]
+        if len(app) == 1:
+            tok = app[0].args[0]
+        else:
+            # the arm only chooses the token (T = '{…}') and one cols.append(T) after the chain emits it
+            asg = [s for s in body if isinstance(s, ast.Assign) and len(s.targets) == 1 and isinstance(s.targets[0], ast.Name)]
+            tail = [c for s in lp.body[1:] for c in ast.walk(s) if isinstance(c, ast.Call) and src(c.func) == 'cols.append' and c.args and isinstance(c.args[0], ast.Name)]
+            if len(asg) != 1 or len(body) != 1 or len(tail) != 1 or tail[0].args[0].id != asg[0].targets[0].id:
+                ctx.unknown('C18.R4', ci, 'suggestion arm without a single cols.append')
+            tok = asg[0].value
+            app = [tail[0]]
         # token text with the date format hole filled by the detector literal
         if isinstance(tok, ast.JoinedStr):
             text = ''
